@@ -30,6 +30,7 @@ macro_rules! rtdebug {
 /// This automatically imports when on wasm targets and then defines a dummy
 /// panicking shim for native targets to support native compilation but fail at
 /// runtime.
+#[cfg(not(bytecodealliance_wit_bindgen_verif))]
 macro_rules! extern_wasm {
     (
         $(#[$extern_attr:meta])*
@@ -49,6 +50,30 @@ macro_rules! extern_wasm {
         )*
 
         #[cfg(target_family = "wasm")]
+        $(#[$extern_attr])*
+        unsafe extern "C" {
+            $(
+                $(#[$func_attr])*
+                $vis fn $func_name($($args)*) $(-> $ret)?;
+            )*
+        }
+    };
+}
+
+/// Verification hook (`--cfg bytecodealliance_wit_bindgen_verif`): declare the
+/// canonical built-ins as real foreign functions on every target so that a
+/// native mock host can provide them.
+#[cfg(bytecodealliance_wit_bindgen_verif)]
+macro_rules! extern_wasm {
+    (
+        $(#[$extern_attr:meta])*
+        unsafe extern "C" {
+            $(
+                $(#[$func_attr:meta])*
+                $vis:vis fn $func_name:ident ( $($args:tt)* ) $(-> $ret:ty)?;
+            )*
+        }
+    ) => {
         $(#[$extern_attr])*
         unsafe extern "C" {
             $(
